@@ -967,6 +967,7 @@ def l2_write_scn(sid, a, rnd):
         calls.append({"op": "flush"})
     calls.append({"op": "finish"})
     opt = {"preset": rnd.choice([0, 1, 3, 6]), "dict": L2_DICT}
+    opt["lc"], opt["lp"], opt["pb"] = rnd.choice([(3, 0, 2), (3, 0, 2), (0, 0, 0), (4, 0, 4), (0, 4, 0), (2, 2, 1)])
     if any_si or rnd.random() < 0.5:
         opt["limit"] = L2_DICT
     return {"id": sid, "fam": "lzma2_write", "seed": rnd.getrandbits(32), "opt": opt, "calls": calls,
@@ -1143,6 +1144,7 @@ LA_UNIT = 1500
 def la_write_scn(sid, a, rnd):
     calls = [{"op": "write", "n": c["n"] * LA_UNIT} if c["op"] == "w" else {"op": "finish"} for c in a["calls"]]
     opt = {"preset": rnd.choice([0, 1, 4, 6]), "dict": rnd.choice([4096, 65536, 1 << 20])}
+    opt["lc"], opt["lp"], opt["pb"] = rnd.choice([(3, 0, 2), (3, 0, 2), (0, 0, 0), (4, 0, 4), (0, 4, 0), (2, 2, 1), (1, 3, 3)])   # lc + lp <= 4: what liblzma decodes
     if a["exp"] >= 0:
         opt["expected"] = a["exp"] * LA_UNIT
     return {"id": sid, "fam": "lzma_write", "seed": rnd.getrandbits(32), "opt": opt, "class": rnd.choice(["text", "seq", "random", "mixed", "zeros"]),
